@@ -308,6 +308,43 @@ func c11Gen(tier string, rng *rand.Rand, emit func(interface{})) {
 			emit(c11Case{Op: 1, N: nq.n, Q: F64(nq.q), Cs: []F64{F64(float64(1+rng.Intn(1023)) / 1024)}})
 		}
 	}
+	// (b7) n > 30, band-aligned levels (the counterpart of `Auto` for n <= 30): c = the implementation's own
+	// float mass of a band [h, 2mu-h] with half-integer ends, and its neighbours 1..3 ulps away.  For such c
+	// norm.InvCDF((1-c)/2) lands on (or within an ulp of) the band boundary h: the outward rounding is
+	// decided by the last bit, and "Confidence never below c" is tested where it is tightest.
+	nal := 40
+	if thorough {
+		nal = 600
+	}
+	for i := 0; i < nal; i++ {
+		n := []int{31, 32, 36, 64, 100}[rng.Intn(5)]
+		if rng.Intn(2) == 0 {
+			n = 31 + rng.Intn(400)
+		}
+		q := 0.5
+		if rng.Intn(2) == 0 { // mu a multiple of 1/2: both ends of the symmetric band are half-integers together
+			q = float64(1+rng.Intn(2*n-1)) / float64(2*n)
+		}
+		norm := stats.BinomialDist{N: n, P: q}.NormalApprox()
+		if !(norm.Sigma > 0) {
+			continue
+		}
+		w := float64(rng.Intn(int(4*norm.Sigma) + 1))
+		h := math.Floor(norm.Mu-0.25) + 0.5 - w // a half-integer below mu
+		c0 := norm.CDF(2*norm.Mu-h) - norm.CDF(h)
+		for d := -2; d <= 3; d++ {
+			cf := c0
+			for j := 0; j < d; j++ {
+				cf = math.Nextafter(cf, 2)
+			}
+			for j := 0; j > d; j-- {
+				cf = math.Nextafter(cf, -1)
+			}
+			if cf > 0 && cf < 1 {
+				emit(c11Case{Op: 1, N: n, Q: F64(q), Cs: []F64{F64(cf)}})
+			}
+		}
+	}
 	// (b5) n > 30, c <= 0 (repaired by "fix: QuantileCI returns an empty or inverted interval for
 	// confidence <= 0 when n > 30") and c just above 0; q such that mu and mu +- 0.5 are integers
 	// (l1 = r1 = mu on a band boundary: the empty rounded band)
